@@ -3,7 +3,8 @@ import ast
 import struct
 
 from ..index import AnalysisError, FUNC, ClassInfo, unparse, parents, stmt_of
-from ..match import match, find, same, walk_no_nested, dotted, attr_chain
+from ..match import (match, find, same, walk_no_nested, dotted, attr_chain,
+                     match_stmt, find_stmt, clone)
 from ..evalx import Evaluator, Unknown, Raised, EnumVal, Flags, Obj, Opaque
 from ..cfg import CFG, _walk_expr
 from ..dataflow import ReachingDefs, inline_locals
